@@ -344,10 +344,7 @@ fn eval_step_expr(
 ) -> error::Result<Vec<dom::XmlNode>> {
     match step {
         expr::Step::Current => Ok(vec![node]),
-        expr::Step::Parent => match node {
-            dom::XmlNode::Document(_) => Ok(vec![]),
-            _ => Ok(vec![node.parent_node().unwrap()]),
-        },
+        expr::Step::Parent => Ok(parent(&node).into_iter().collect()),
         expr::Step::Test(axis, test, predicate) => {
             eval_axis_node_test(axis, test, predicate, node, context)
         }
@@ -376,7 +373,7 @@ fn eval_axis_node_test(
             expr::AxisName::Following => following(node),
             expr::AxisName::FollowingSibling => following_sibling(node),
             expr::AxisName::Namespace => namespace(node),
-            expr::AxisName::Parent => vec![node.parent_node().unwrap()],
+            expr::AxisName::Parent => parent(&node).into_iter().collect(),
             expr::AxisName::Preceding => preceding(node),
             expr::AxisName::PrecedingSibling => preceding_sibling(node),
             expr::AxisName::Current => vec![node],
@@ -516,13 +513,22 @@ fn eval_func_expr(
 
 // -----------------------------------------------------------------------------------------------
 
+/// The parent in the XPath data model: an attribute's parent is the element that bears it, the
+/// root has none.
+fn parent(node: &dom::XmlNode) -> Option<dom::XmlNode> {
+    match node {
+        dom::XmlNode::Attribute(v) => v.owner_element().map(|v| v.as_node()),
+        _ => node.parent_node(),
+    }
+}
+
 fn ancestor(node: dom::XmlNode) -> Vec<dom::XmlNode> {
     let mut nodes = vec![];
 
-    let mut parent = node.parent_node();
-    while let Some(p) = parent {
+    let mut current = parent(&node);
+    while let Some(p) = current {
         nodes.push(p.clone());
-        parent = p.parent_node();
+        current = parent(&p);
     }
 
     nodes
@@ -575,11 +581,27 @@ fn descendant_and_self(node: dom::XmlNode) -> Vec<dom::XmlNode> {
     nodes
 }
 
+/// Everything after the node in document order that is not its descendant: the following
+/// siblings of the node and of each of its ancestors, with their descendants (an attribute is
+/// followed by the content of its element first).
 fn following(node: dom::XmlNode) -> Vec<dom::XmlNode> {
     let mut nodes = vec![];
 
-    for n in following_sibling(node) {
-        nodes.append(&mut descendant_and_self(n));
+    let mut current = if let dom::XmlNode::Attribute(_) = node {
+        let element = parent(&node);
+        if let Some(e) = element.as_ref() {
+            nodes.append(&mut descendant(e.clone()));
+        }
+        element
+    } else {
+        Some(node)
+    };
+
+    while let Some(c) = current {
+        for n in following_sibling(c.clone()) {
+            nodes.append(&mut descendant_and_self(n));
+        }
+        current = parent(&c);
     }
 
     nodes
@@ -609,13 +631,24 @@ fn namespace(node: dom::XmlNode) -> Vec<dom::XmlNode> {
     nodes
 }
 
+/// Everything before the node in document order that is not its ancestor: the preceding
+/// siblings of the node and of each of its ancestors, with their descendants.
 fn preceding(node: dom::XmlNode) -> Vec<dom::XmlNode> {
     let mut nodes = vec![];
 
-    for p in preceding_sibling(node) {
-        let mut desc = descendant_and_self(p);
-        desc.reverse();
-        nodes.append(&mut desc);
+    let mut current = if let dom::XmlNode::Attribute(_) = node {
+        parent(&node)
+    } else {
+        Some(node)
+    };
+
+    while let Some(c) = current {
+        for p in preceding_sibling(c.clone()) {
+            let mut desc = descendant_and_self(p);
+            desc.reverse();
+            nodes.append(&mut desc);
+        }
+        current = parent(&c);
     }
 
     nodes
